@@ -409,6 +409,7 @@ func runScenario(scn *Scn) (lines []string, clean bool, stat map[string]int) {
 	})
 	r := &runner{scn: scn, idx: map[*modules.Task]int{}, yseen: map[yieldKey]int{}, stat: map[string]int{}}
 	r.start = time.Now()
+	r.lastEv = r.start
 	r.base = r.start.Add(-time.Second)
 	r.inRun = make([]int, scn.N)
 	r.watchers = make([]int, scn.N)
@@ -489,8 +490,10 @@ func runScenario(scn *Scn) (lines []string, clean bool, stat map[string]int) {
 		time.Sleep(time.Duration(scn.Tail) * time.Millisecond)
 	}
 
-	// wait for quiescence; break context-race stalls of the queue (see notes/c07.md)
-	deadline := time.Now().Add(4 * time.Second)
+	// wait for quiescence; break context-race stalls of the queue (see notes/c07.md).
+	// The wait ends when the scheduler is quiescent, or when nothing at all happened for 3 s (stuck),
+	// or after 30 s.
+	hardStop := time.Now().Add(30 * time.Second)
 	okCnt := 0
 	for {
 		G.Lock()
@@ -519,7 +522,7 @@ func runScenario(scn *Scn) (lines []string, clean bool, stat map[string]int) {
 			r.info(fmt.Sprintf("stallbreak %d", stalled))
 			r.doOp("c", stalled, 0, "hx")
 		}
-		if time.Now().After(deadline) {
+		if (!q && idle > 3*time.Second) || time.Now().After(hardStop) {
 			break
 		}
 		time.Sleep(2 * time.Millisecond)
